@@ -270,14 +270,14 @@ REJ_CONTRACT = settle_pre(C) + """
         # a pending promise becomes rejected with the given exception; the rejection side of EVERY attached continuation is invoked exactly
         # once (unless a continuation raises), the fulfilment side of none
         ensures (this->core_ != 0 && OLD(this->core_->state) == ST_PENDING) ==> (this->core_->state == ST_REJECTED && this->core_->exc == g_exp_exc)
-        ensures g_res_calls == 0 && g_k_rej <= 1 && (this->core_ != 0 ==> g_rej_calls <= this->core_->requests.n)
+        ensures g_res_calls == 0 && g_k_res == 0 && g_k_rej <= 1 && g_k_rej <= g_rej_calls && (this->core_ != 0 ==> g_rej_calls <= this->core_->requests.n)
         ensures (this->core_ != 0 && OLD(this->core_->state) == ST_PENDING && vs_exc == 0) ==> (RET && g_rej_calls == this->core_->requests.n && (this->core_->requests.n > 0 ==> g_k_rej == 1))
         # Async::Error is raised only for a promise that is no longer pending; anything else that comes out was raised by a continuation
         ensures vs_exc == 0 || (vs_exc == VS_EXC_RUNTIME_ERROR && this->core_ != 0 && OLD(this->core_->state) != ST_PENDING) || (vs_exc == VS_EXC_OTHER_STD && g_rej_calls > 0)
         ensures this->core_ != 0 ==> (!this->core_->mtx.held && this->core_->requests.n == OLD(this->core_->requests.n))"""
 REJ_LOOP = """
         assigns $BEGIN, vs_exc, g_k_rej, g_rej_calls, vs_req_slot
-        invariant $BEGIN <= $END && $END == this->core_->requests.n && vs_exc == 0 && g_rej_calls == $BEGIN && g_k_rej == ((g_k < $BEGIN) ? 1 : 0)
+        invariant $BEGIN <= $END && $END == this->core_->requests.n && vs_exc == 0 && g_rej_calls == $BEGIN && g_k_rej == ((g_k < $BEGIN) ? 1 : 0) && g_k_res == 0 && g_res_calls == 0
         invariant this->core_->state == ST_REJECTED && this->core_->exc == g_exp_exc && this->core_->mtx.held && guard.m == &this->core_->mtx
         decreases $END - $BEGIN"""
 
@@ -296,13 +296,13 @@ def RES_CONTRACT(void):
         ensures (this->core_ != 0 && OLD(this->core_->state) == ST_PENDING && %(wv)s && vs_exc == 0) ==> (RET && this->core_->state == ST_FULFILLED && g_constructs == %(nc)s && g_res_calls == this->core_->requests.n && (this->core_->requests.n > 0 ==> g_k_res == 1))
         ensures (this->core_ != 0 && g_res_calls > 0) ==> this->core_->state == ST_FULFILLED
         ensures this->core_ != 0 ==> (this->core_->state == OLD(this->core_->state) || (OLD(this->core_->state) == ST_PENDING && this->core_->state == ST_FULFILLED))
-        ensures g_rej_calls == 0 && g_k_res <= 1 && (this->core_ != 0 ==> g_res_calls <= this->core_->requests.n) && g_constructs <= 1
+        ensures g_rej_calls == 0 && g_k_rej == 0 && g_k_res <= 1 && g_k_res <= g_res_calls && (this->core_ != 0 ==> g_res_calls <= this->core_->requests.n) && g_constructs <= 1
         ensures vs_exc == 0 || vs_exc == VS_EXC_RUNTIME_ERROR || (vs_exc == VS_EXC_OTHER_STD && g_res_calls > 0)
         ensures (vs_exc == VS_EXC_RUNTIME_ERROR && this->core_ != 0 && OLD(this->core_->state) == ST_PENDING && %(wv)s) ==> (g_res_calls == 0 && this->core_->state == ST_PENDING)
         ensures this->core_ != 0 ==> (!this->core_->mtx.held && this->core_->requests.n == OLD(this->core_->requests.n))""" % {'wv': want_void, 'nc': '0' if void else '1'}
 RES_LOOP = """
         assigns $BEGIN, vs_exc, g_k_res, g_res_calls, vs_req_slot
-        invariant $BEGIN <= $END && $END == this->core_->requests.n && vs_exc == 0 && g_res_calls == $BEGIN && g_k_res == ((g_k < $BEGIN) ? 1 : 0)
+        invariant $BEGIN <= $END && $END == this->core_->requests.n && vs_exc == 0 && g_res_calls == $BEGIN && g_k_res == ((g_k < $BEGIN) ? 1 : 0) && g_k_rej == 0 && g_rej_calls == 0
         invariant this->core_->state == ST_FULFILLED && this->core_->mtx.held && guard.m == &this->core_->mtx
         decreases $END - $BEGIN"""
 def comb_pre(d, inv):
@@ -417,9 +417,9 @@ FUNCTIONS += [
         assigns """ + GH + """, g_pushed, vs_tmp_core, this->core_->mtx, this->core_->requests
         # C11: a continuation attached AFTER settlement is handed the outcome at once -- fulfilled: its fulfilment side, rejected: its
         # rejection side, pending: nothing -- exactly once, and never the other side
-        ensures this->core_->state == ST_FULFILLED ==> (g_k_res == 1 && g_res_calls == 1 && g_rej_calls == 0)
-        ensures this->core_->state == ST_REJECTED ==> (g_k_rej == 1 && g_rej_calls == 1 && g_res_calls == 0)
-        ensures this->core_->state == ST_PENDING ==> (g_res_calls == 0 && g_rej_calls == 0 && vs_exc == 0)
+        ensures this->core_->state == ST_FULFILLED ==> (g_k_res == 1 && g_res_calls == 1 && g_rej_calls == 0 && g_k_rej == 0)
+        ensures this->core_->state == ST_REJECTED ==> (g_k_rej == 1 && g_rej_calls == 1 && g_res_calls == 0 && g_k_res == 0)
+        ensures this->core_->state == ST_PENDING ==> (g_res_calls == 0 && g_rej_calls == 0 && g_k_res == 0 && g_k_rej == 0 && vs_exc == 0)
         # it is remembered exactly once (behind the ones already attached), so that a later settlement reaches it once
         ensures vs_exc == 0 ==> (g_pushed == 1 && this->core_->requests.n == OLD(this->core_->requests.n) + 1)
         ensures vs_exc != 0 ==> g_pushed == 0
@@ -583,4 +583,56 @@ PROOFS = [
     {'name': 'Continuation_void_doResolve', 'enforce': 'Continuation_Sink_doResolve', 'props': ['C11']},
     {'name': 'Continuation_void_doReject', 'enforce': 'Continuation_Sink_doReject', 'props': ['C11']},
     {'name': 'Any_reject', 'enforce': 'Pistache_Async_Impl_Any_reject', 'replace': ['Rejection_call_eptr'], 'props': ['C11']},
+]
+
+# ---- composition lemmas over the CONTRACTS (both callees replaced by their contracts): the two orders of attach and settle.  They
+# mechanise the smallest instances of the composition that the MANIFEST otherwise only states: a continuation attached before or after
+# settlement runs exactly once, and a second settlement runs nothing.
+LEMMA_PRE = r"""
+    struct Pistache_Async_Private_Core core; struct Pistache_Async_Promise_int_ p; struct Pistache_Async_Resolver r;
+    struct Pistache_Async_VerifInst_AddOne f; struct Pistache_Async_Private_Throw t; int v;
+    __CPROVER_assume(CORE_OK(&core) && core.state == ST_PENDING && core.requests.n < REQ_MAX);
+    p.core_ = &core; r.core_ = &core; g_exp_core = &core; g_type_void = 0; vs_exc = 0;
+    size_t n0 = core.requests.n;
+"""
+RESET = "g_k_res = 0; g_k_rej = 0; g_res_calls = 0; g_rej_calls = 0; g_constructs = 0; g_pushed = 0;"
+PROOFS += [
+    {'name': 'lemma_attach_then_settle', 'enforce': None, 'lemma': 'lemma_attach_then_settle', 'replace': ['Promise_int_then_AddOne', 'Resolver_call_int'], 'props': ['C11'],
+     'harness': r"""
+void lemma_attach_then_settle(void)
+{""" + LEMMA_PRE + r"""
+    /* attach to the pending promise: the new continuation will be request number n0 */
+    """ + RESET + r""" g_new_req = n0; g_k = n0; g_exp_exc = core.exc;
+    (void)Promise_int_then_AddOne(&p, f, t);
+    __CPROVER_assert(vs_exc == 0 && g_k_res == 0 && g_k_rej == 0 && core.requests.n == n0 + 1 && core.state == ST_PENDING, "attached to a pending promise: remembered, not run");
+    /* settle: the contract counts the invocations of request number g_k == n0, the one just attached */
+    """ + RESET + r"""
+    (void)Resolver_call_int(&r, &v);
+    __CPROVER_assert(vs_exc != 0 || (g_k_res == 1 && core.state == ST_FULFILLED), "C11: a continuation attached BEFORE settlement runs exactly once when the promise is fulfilled");
+    __CPROVER_assert(g_k_res <= 1 && g_k_rej == 0, "C11: at most once, and never its rejection side");
+    VS_REACH(lemma_attach_then_settle_end);
+}
+void h_lemma_attach_then_settle(void) { lemma_attach_then_settle(); }
+"""},
+    {'name': 'lemma_settle_then_attach', 'enforce': None, 'lemma': 'lemma_settle_then_attach', 'replace': ['Promise_int_then_AddOne', 'Resolver_call_int'], 'props': ['C11'],
+     'harness': r"""
+void lemma_settle_then_attach(void)
+{""" + LEMMA_PRE + r"""
+    """ + RESET + r""" __CPROVER_assume(n0 == 0 || g_k < n0);
+    (void)Resolver_call_int(&r, &v);
+    __CPROVER_assume(vs_exc == 0);                  /* no continuation attached so far raised */
+    __CPROVER_assert(core.state == ST_FULFILLED && core.requests.n == n0, "settled");
+    /* attach afterwards: the new continuation is request number n0 */
+    """ + RESET + r""" g_new_req = n0; g_k = n0; g_exp_exc = core.exc;
+    (void)Promise_int_then_AddOne(&p, f, t);
+    __CPROVER_assert(g_k_res == 1 && g_k_rej == 0, "C11: a continuation attached AFTER settlement is handed the outcome at once, exactly once");
+    __CPROVER_assume(vs_exc == 0);
+    /* a second settlement raises in the party that settles and runs nothing -- in particular not the continuation again */
+    """ + RESET + r"""
+    (void)Resolver_call_int(&r, &v);
+    __CPROVER_assert(vs_exc == VS_EXC_RUNTIME_ERROR && g_k_res == 0 && g_res_calls == 0 && core.state == ST_FULFILLED, "C11: a settled promise is not settled again and its continuations do not run again");
+    VS_REACH(lemma_settle_then_attach_end);
+}
+void h_lemma_settle_then_attach(void) { lemma_settle_then_attach(); }
+"""},
 ]
